@@ -431,46 +431,55 @@ def run(check):
                    % sorted(extra), construct='UnitMultipliers keys')
   pr = cx.fn('carbon.util', 'parseRetentionDef')
   gp = cx.cfg(pr)
+  from ..paths import PathExec, mentions
+  from ..symeval import show, canon
 
-  def scaled(e, _depth=0):
-    if isinstance(e, ast.Name) and _depth < 4:
-      srcs = resolve_copies(pr, e)
-      return bool(srcs) and srcs != [e] and all(isinstance(v, ast.AST) and scaled(v, _depth + 1) for v in srcs)
-    return isinstance(e, ast.AST) and any(isinstance(x, ast.Subscript) and dotted(x.value) == 'UnitMultipliers'
-                                          for x in ast.walk(e)) and any(isinstance(x, ast.BinOp) and isinstance(x.op, ast.Mult)
-                                                                        for x in ast.walk(e))
-  divs = []
-  for n in gp.nodes:
-    if n.kind == 'stmt' and n.ast is not None:
-      for x in walk_no_nested(n.ast):
-        if isinstance(x, ast.BinOp) and isinstance(x.op, (ast.Div, ast.FloorDiv)) and scaled(x.left):
-          divs.append((n, x))
-  if not divs:
+  def unit_lookup(t):
+    return isinstance(t, tuple) and t[0] in ('sub', 'field') and t[1] == ('param', 'UnitMultipliers')
+
+  def scaled_term(t):
+    """<number> * UnitMultipliers[<unit>]  (either order)"""
+    return isinstance(t, tuple) and t[0] == 'binop' and t[1] == 'Mult' and (unit_lookup(t[2]) != unit_lookup(t[3]))
+  px = PathExec(cx, pr, unroll=0, follow_exceptions=False, fold_tables=False)
+  ret_nodes = [n for n in gp.nodes if n.kind == 'stmt' and isinstance(n.ast, ast.Return) and n.ast.value is not None]
+  shapes = set()
+  ok0 = True
+  n_div = 0
+  for hit in px.run(ret_nodes):
+    t = hit.term(hit.node.ast.value, px)
+    if not (isinstance(t, tuple) and t[0] == 'tuple' and len(t) == 3):
+      r_un.cannot_decide('parseRetentionDef does not return a pair')
+      ok0 = False
+      continue
+    P, Q = t[1], t[2]
+    key = (P, Q)
+    if key in shapes:
+      continue
+    shapes.add(key)
+    if not scaled_term(P):
+      ok0 = False
+      r_un.violate('precision not in seconds', pr, hit.node.ast, 'the first component returned (seconds per point) is `%s`, not a '
+                   'number scaled by UnitMultipliers[<unit>]' % show(P))
+      continue
+    if not mentions(Q, unit_lookup):
+      continue                       # a plain number of points
+    if isinstance(Q, tuple) and Q[0] == 'binop' and Q[1] in ('Div', 'FloorDiv') and scaled_term(Q[2]) and Q[3] == P:
+      n_div += 1
+      r_un.ok('duration divided by the precision in seconds', pr.loc(hit.node.ast), '%s' % show(Q)[:120])
+    else:
+      r_un.violate('duration / precision', pr, hit.node.ast, 'a retention given as a duration yields `%s` points: not the '
+                   'unit-scaled duration divided by the unit-scaled precision (the same value that is returned as seconds per '
+                   'point)' % show(Q))
+  if px.truncated:
+    r_un.cannot_decide('too many paths through parseRetentionDef')
+  if not n_div and not any(i_['verdict'] == 'VIOLATED' for i_ in r_un.instances):
     r_un.violate('duration / precision', pr, None, 'no division of a unit-scaled duration by the precision found in '
                  'parseRetentionDef', construct='points = <duration> / precision')
-  for n, x in divs:
-    div = x.right
-    if isinstance(div, ast.Name):
-      rds = reaching_defs(gp, div.id, n)
-      vals = [value_assigned(d, div.id) if d is not gp.entry else None for d in rds]
-      if vals and all(isinstance(v, ast.AST) and scaled(v) for v in vals):
-        r_un.ok('duration divided by the precision in seconds', pr.loc(x), '%s <- %s' % (div.id, [unparse(v) for v in vals]))
-      else:
-        r_un.violate('duration / precision', pr, x, 'the duration is divided by `%s`, which at this point is not (on every '
-                     'path) the precision scaled to seconds (definitions: %s)' % (
-                       div.id, [unparse(v) if isinstance(v, ast.AST) else str(v) for v in vals]))
-    elif scaled(div):
-      r_un.ok('duration divided by the precision in seconds', pr.loc(x))
-    else:
-      r_un.violate('duration / precision', pr, x, 'the duration is divided by `%s`, not by the precision in seconds' % unparse(div))
   # tuple layout: parseRetentionDef returns (precision, points); Archive(secondsPerPoint, points)
   rets = [r for r in walk_no_nested(pr.node, include_self=False) if isinstance(r, ast.Return) and r.value is not None]
   fs = repo.cls('carbon.storage', 'Archive').methods.get('fromString')
   gt = repo.cls('carbon.storage', 'Archive').methods.get('getTuple')
-  if rets and isinstance(rets[0].value, ast.Tuple) and len(rets[0].value.elts) == 2 and fs is not None and gt is not None:
-    e0 = rets[0].value.elts[0]
-    divisor_names = {x.right.id for n, x in divs if isinstance(x.right, ast.Name)}
-    ok0 = (isinstance(e0, ast.Name) and e0.id in divisor_names) or scaled(e0)
+  if rets and fs is not None and gt is not None:
     gts = [r for r in walk_no_nested(gt.node, include_self=False) if isinstance(r, ast.Return)]
     ok1 = gts and unparse(gts[0].value).replace(' ', '') == '(self.secondsPerPoint,self.points)'
     init = repo.cls('carbon.storage', 'Archive').methods.get('__init__')
